@@ -15,6 +15,8 @@ CHECKS = {
  "C05": ("fsdiff/layer-stacks", "exploration", "seeded search over histories on twelve layer stacks mirrored on an os twin; every failing call judged for concrete error type, path fields in the caller's namespace and the sentinel the os error matches", "samples histories; mount points as operands of Remove/Rename are configuration and not compared; Op strings are not compared", TECH_SEQ),
  "C07": ("fsdiff/sub-twin", "exploration", "seeded search: two identical instances driven by the same history, op(Sub(A,dir),name) against op(B,dir/name), comparing outcome, data, error path and full snapshots", "samples histories; dir is an existing or missing directory, never a regular file; OS symlinks excluded as in the statement", TECH_SEQ),
  "C08": ("capsim", "exploration", "seeded search over (helper, exposed-interface subset, start state, fault position): each package helper on a FaultFS exposing a drawn subset of exactly the interfaces its dispatch inspects (70 generated wrapper types over real mem.FS / os.FS), against a twin exposing all of them; in half of the trials one primitive call inside the fallback path fails", "samples subsets and fault positions (all 2^k subsets per helper are reachable by the draw, coverage is counted, not enumerated); what the caller does with a handle returned by OpenFile/Create is not part of the helper", TECH_FAULT),
+ "C10": ("cachesim", "exploration", "seeded search over source trees (sizes around the copy buffer), RetainData policies, cache-store kinds (full mem.FS / only OpenFile+Mkdir), copy-buffer knob values and access sequences on cache.ReadOnlyFS, mirrored call by call on handles of the source; plus the source call log for 'not read again'", "fault-free configuration of the C11 simulator (legal odd read shapes only); Seek is compared on regular files only; page order of directory reads is not compared, page sizes and the final multiset are; mtimes are not compared", TECH_SEQ + " with buggified read shapes and a knob for the copy buffer"),
+ "C11": ("cachesim", "exploration", "fault mode: seeded search over the position of one fault among all source and cache-store calls of a fill (incl. writes accepted in part and a close that loses the tail), followed by fault-free re-opens; concurrent mode: 2-4 first opens of one name as tasks under the seeded scheduler with the copy paused at every chunk, gates at the per-path lock; judged: error reported, complete-or-error afterwards, never two copies of one name in progress, no deadlock", "samples fault positions and schedules; closing read handles and the final rewind of the source handle are not required to fail the open", TECH_SCHED),
  "C14": ("storesim", "exploration", "seeded search over operation histories and single store faults (position over all store call indices; kinds: Get, rejected Set, Set applied but reported failed, lazy Data(), lazy ReadDirNames(), Transaction()) on keyvalue.FS over a plain SimStore (serial fallback) and over the real in-memory TransactionStore behind a fault-injecting wrapper, with a fault-free twin in lockstep", "one fault per trial (the property speaks of a single failing call); after the fault the twin is no longer compared, the look-up-agrees-with-store invariant keeps running; runs as a single scheduler task with lock gates so a store left locked is a deadlock verdict", TECH_FAULT),
  "C15": ("concsim", "exploration", "seeded search over small concurrent programs (2-3 tasks x 1-3 operations, three families) and over their interleavings on the real mem.FS: tasks are real goroutines parked at gates (transaction open = lock gate on the real store mutex, every Get/Set/Commit/Abort, every lazy record getter, every blob and FS-level mutex acquisition); judged against the set of outcomes of all program-order-preserving sequential executions of the same code; plus an auxiliary free-running pass under the race detector, which is runtime monitoring and labelled so", "operations = single methods of the FS or of a handle (helpers that fall back to several primitive calls are sequences of operations); serialisability, not real-time linearizability, as the statement says; interleavings are explored at gate granularity: two plain memory accesses racing between gates are only visible to the auxiliary -race pass; sampled schedules (3 policies), not all", TECH_SCHED + "; oracle = sequential re-execution of the same code in every program-order-preserving order"),
  "C16": ("fsdiff/listing", "exploration", "seeded search over directory sizes, stacks and page-size sequences; by-name listing and paged handle reads judged for completeness, duplicates, order, Info-vs-Stat agreement and EOF rules", "directories are not mutated between pages; mem listing order permuted from the choice stream", TECH_SEQ),
